@@ -419,6 +419,9 @@ func runRedial(rec *Rec, app *App, fw *forwarder, sc *RedialScenario, n int) {
 			sess.SetID(userID)
 		case "wait":
 			// quiescence: healthy again, or ended; bounded by a complete round of attempts
+			// (healthy means healthy and staying so: right after a loss the previous read loop and a caller may both
+			//  redial, and the session can be up, down and up again within a few milliseconds)
+			stableSince := time.Time{}
 			ok := WaitUntil(3*time.Second, func() bool {
 				select {
 				case <-sess.CloseNotify():
@@ -426,7 +429,13 @@ func runRedial(rec *Rec, app *App, fw *forwarder, sc *RedialScenario, n int) {
 				default:
 				}
 				if stp.Expect == "healthy" {
-					return sess.Health() && erpc.VerifStatus(sess) == 1
+					if sess.Health() && erpc.VerifStatus(sess) == 1 {
+						if stableSince.IsZero() {
+							stableSince = time.Now()
+						}
+						return time.Since(stableSince) > 20*time.Millisecond
+					}
+					stableSince = time.Time{}
 				}
 				return false
 			})
